@@ -5,14 +5,22 @@ use std::io::{self, BufRead, Write};
 mod util;
 mod ops_c13;
 mod ops_rpu;
+mod ops_c08;
 mod ops_av1;
+mod ops_cli;
 
 pub use util::*;
+
+thread_local! {
+    static PANIC_LOC: std::cell::RefCell<String> = std::cell::RefCell::new(String::new());
+}
 
 fn dispatch(parts: &[&str]) -> String {
     match parts[0] {
         "esc" | "unesc" | "hesc" | "hunesc" | "escdigest" | "nalwrite" => ops_c13::run(parts),
         op if op.starts_with("av1.") => ops_av1::run(parts),
+        op if op.starts_with("cli.") => ops_cli::run(parts),
+        op if op.starts_with("c08.") => ops_c08::run(parts),
         op if op.starts_with("rpu.") || op.starts_with("nalu.") => ops_rpu::run(parts),
         _ => "bad-op".to_string(),
     }
@@ -20,7 +28,20 @@ fn dispatch(parts: &[&str]) -> String {
 
 fn main() {
     // panics are reported as the outcome class `panic`, silently
-    std::panic::set_hook(Box::new(|_| {}));
+    std::panic::set_hook(Box::new(|info| {
+        let loc = info
+            .location()
+            .map(|l| format!("{}:{}", l.file(), l.line()))
+            .unwrap_or_else(|| "?".to_string());
+        PANIC_LOC.with(|p| *p.borrow_mut() = loc);
+    }));
+    // address-space limit: an attacker-sized allocation must fail (and abort) instead of succeeding lazily
+    if let Ok(mb) = std::env::var("VERIF_RLIMIT_AS_MB") {
+        if let Ok(mb) = mb.parse::<u64>() {
+            let lim = libc::rlimit { rlim_cur: mb << 20, rlim_max: mb << 20 };
+            unsafe { libc::setrlimit(libc::RLIMIT_AS, &lim); }
+        }
+    }
     let stdin = io::stdin();
     let stdout = io::stdout();
     let mut out = io::BufWriter::new(stdout.lock());
@@ -37,9 +58,11 @@ fn main() {
         let res = std::panic::catch_unwind(|| dispatch(&parts));
         let s = match res {
             Ok(s) => s,
-            Err(_) => "panic".to_string(),
+            Err(_) => format!("panic:{}", PANIC_LOC.with(|p| p.borrow().clone())),
         };
         writeln!(out, "{}", s).unwrap();
+        // a later case may abort the process: what was decided so far must already be out
+        out.flush().unwrap();
     }
     out.flush().unwrap();
 }
